@@ -80,8 +80,16 @@ C12DumpOK(e) ==
   /\ \A k \in 1..Len(e.claims) : e.claims[k].p \in peerAddrs
   /\ \A k \in 1..Len(e.cache) : e.cache[k].p \in peerAddrs
 
+\* C05 (node level): after an adversarial phase (loss, duplication, delay up to 90 s, either or both sides dialling) the
+\* nodes are mutually connected again within the peer timeout plus the handshake retry horizon once delivery is reliable,
+\* and payload flows in both directions
+C05RunOK(e) == /\ e.panics = 0
+               /\ e.reconnect_after >= 0 /\ e.reconnect_after <= e.peer_timeout + 120 + 2
+               /\ e.deliveries = e.expected_deliveries
+
 Step(e) ==
   CASE e.op = "c09run"  -> C09RunOK(e)
+    [] e.op = "c05run" -> C05RunOK(e)
     [] e.op = "c12dump" -> C12DumpOK(e)
     [] e.op = "c12send" -> FALSE                 \* a payload datagram went to an address that is not a peer
     [] e.op = "c12end" -> e.panics = 0
